@@ -1131,8 +1131,9 @@ class WcParse(Generic[AnyStr]):
                 if self.pathname:
                     raise StopIteration
                 value = c
-            elif c in SET_OPERATORS:
+            elif c in SET_OPERATORS or c == '#':
                 # Escape &, |, and ~ to avoid &&, ||, and ~~
+                # Escape # so that a literal `(?#)` in a sequence is not taken for the capture marker
                 value = '\\' + c
             else:
                 # Anything else
